@@ -134,6 +134,8 @@ pub struct Run {
     pkts: Vec<Pkt>,
     pub tok_fails: bool,
     pub seq: u64,
+    /// a contract in an old storage format that has not been migrated yet ("none" | "v1" | "v2")
+    pub legacy_pending: String,
 }
 
 fn remote_of(ch: &str) -> String {
@@ -203,7 +205,7 @@ impl Run {
             );
             w.app.wasm_sudo(ics.clone(), &IbcSudo::Connect { channel }).unwrap();
         }
-        let mut run = Run { w, sc, ics, tok, code_id, channels, pkts: vec![], tok_fails: false, seq: 0 };
+        let mut run = Run { w, sc, ics, tok, code_id, channels, pkts: vec![], tok_fails: false, seq: 0, legacy_pending: "none".into() };
         // pre-history (before a legacy layout is laid down): transfers on the current code
         if let Some(pre) = cfg.get("pre").and_then(|x| x.as_array()) {
             let mut sink = Out::create("/dev/null");
@@ -212,15 +214,10 @@ impl Run {
             }
         }
         let legacy = cfg.get("legacy").and_then(|x| x.as_str()).unwrap_or("none").to_string();
-        if legacy == "v1" {
-            // <= 0.12.0-alpha1: config {default_timeout, gov_contract}, no cw-controllers admin, no allow list
+        run.legacy_pending = legacy.clone();
+        if legacy == "v1" || legacy == "v2" {
             let ics = run.ics.clone();
-            let v1cfg = json!({"default_timeout": 100, "gov_contract": run.w.addr("gov").to_string()});
-            run.w.app.wasm_sudo(ics.clone(), &RawOp::RawSet { key: Binary::from(b"ics20_config".to_vec()), value: Binary::from(serde_json::to_vec(&v1cfg).unwrap()) }).unwrap();
-            run.w.app.wasm_sudo(ics.clone(), &RawOp::RawRemove { key: Binary::from(b"admin".to_vec()) }).unwrap();
-            let ver = json!({"contract":"crates.io:cw20-ics20","version":"0.11.1"});
-            run.w.app.wasm_sudo(ics.clone(), &RawOp::RawSet { key: Binary::from(b"contract_info".to_vec()), value: Binary::from(serde_json::to_vec(&ver).unwrap()) }).unwrap();
-            // the old format credited a channel only when a success acknowledgement arrived: packets still
+            // the old formats credited a channel only when a success acknowledgement arrived: packets still
             // in flight are escrowed but not in the books (migrate's v2 step adds them)
             for d in ["nat", "tok"] {
                 let dc = run.denom_chain(d);
@@ -243,6 +240,21 @@ impl Run {
                 let nv = json!({"outstanding": (o - inflight).to_string(), "total_sent": (t - inflight).to_string()});
                 run.w.app.wasm_sudo(ics.clone(), &RawOp::RawSet { key: Binary::from(key), value: Binary::from(serde_json::to_vec(&nv).unwrap()) }).unwrap();
             }
+        }
+        if legacy == "v2" {
+            // <= 0.13.0: today's layout, only the balance bookkeeping differs
+            let ics = run.ics.clone();
+            let ver = json!({"contract":"crates.io:cw20-ics20","version":"0.13.0"});
+            run.w.app.wasm_sudo(ics, &RawOp::RawSet { key: Binary::from(b"contract_info".to_vec()), value: Binary::from(serde_json::to_vec(&ver).unwrap()) }).unwrap();
+        }
+        if legacy == "v1" {
+            // <= 0.12.0-alpha1: config {default_timeout, gov_contract}, no cw-controllers admin, no allow list
+            let ics = run.ics.clone();
+            let v1cfg = json!({"default_timeout": 100, "gov_contract": run.w.addr("gov").to_string()});
+            run.w.app.wasm_sudo(ics.clone(), &RawOp::RawSet { key: Binary::from(b"ics20_config".to_vec()), value: Binary::from(serde_json::to_vec(&v1cfg).unwrap()) }).unwrap();
+            run.w.app.wasm_sudo(ics.clone(), &RawOp::RawRemove { key: Binary::from(b"admin".to_vec()) }).unwrap();
+            let ver = json!({"contract":"crates.io:cw20-ics20","version":"0.11.1"});
+            run.w.app.wasm_sudo(ics.clone(), &RawOp::RawSet { key: Binary::from(b"contract_info".to_vec()), value: Binary::from(serde_json::to_vec(&ver).unwrap()) }).unwrap();
             let ns = b"allow_list";
             let mut prefix = (ns.len() as u16).to_be_bytes().to_vec();
             prefix.extend_from_slice(ns);
@@ -303,7 +315,7 @@ impl Run {
             ubal.insert(u.to_string(), json!({"nat": f(dn), "tok": f(dt)}));
         }
         let held = json!({"nat": self.sc.down(bal_nat(&self.ics), "held"), "tok": self.sc.down(bal_tok(&self.ics), "held")});
-        let (dgas, admin, listed, gas) = if legacy {
+        let (dgas, admin, listed, gas) = if self.legacy_pending == "v1" {
             (-1i64, "legacy".to_string(), false, -1i64)
         } else {
             let c: ConfigResponse = w.smart(&self.ics, &QueryMsg::Config {}).unwrap();
@@ -316,9 +328,7 @@ impl Run {
     }
 
     fn is_legacy(&self) -> bool {
-        // the v1 layout has no cw-controllers admin entry
-        let r: Result<ConfigResponse, _> = self.w.smart(&self.ics, &QueryMsg::Config {});
-        r.is_err()
+        self.legacy_pending != "none"
     }
 
     pub fn step(&mut self, st: &Value, out: &mut Out) -> Value {
@@ -437,7 +447,11 @@ impl Run {
                 let g = args["gas"].as_i64().unwrap_or(-1);
                 let code = self.code_id;
                 let m = MigrateMsg { default_gas_limit: gas_up(g) };
-                call(&mut self.w, |w| w.app.migrate_contract(creator, ics.clone(), &m, code))
+                let r = call(&mut self.w, |w| w.app.migrate_contract(creator, ics.clone(), &m, code));
+                if r.ok {
+                    self.legacy_pending = "none".into();
+                }
+                r
             }
             other => panic!("ics20: unknown action {other}"),
         };
@@ -518,14 +532,14 @@ impl Run {
 
 // ------------------------------------------------------------------------------ random driver
 pub fn rand_cfg(rng: &mut Rng) -> Value {
-    let legacy = if rng.chance(1, 4) { "v1" } else { "none" };
+    let legacy = match rng.below(8) { 0 | 1 => "v1", 2 => "v2", _ => "none" };
     // the supported upgrade path from the old formats requires a single open channel
-    let channels = if legacy == "v1" || rng.chance(1, 2) { json!(["ch1"]) } else { json!(["ch1", "ch2"]) };
+    let channels = if legacy != "none" || rng.chance(1, 2) { json!(["ch1"]) } else { json!(["ch1", "ch2"]) };
     let dg: i64 = if rng.chance(1, 2) { -1 } else { *rng.pick(&[100i64, 500]) };
     let allow = if rng.chance(1, 2) { json!([{"gas": *rng.pick(&[-1i64, 200, 800])}]) } else { json!([]) };
     let scale = if rng.chance(1, 4) { 40 } else { 0 };
     let mut pre = vec![];
-    if legacy == "v1" {
+    if legacy != "none" {
         let k = rng.range(1, 4);
         for _ in 0..k {
             pre.push(json!({"act":"transfer","by":rng.pick(&USERS),"args":{"denom":rng.pick(&["nat","tok","tok"]),"ch":"ch1","amt":rng.range(1,5),"to":"remote1"}}));
@@ -537,7 +551,7 @@ pub fn rand_cfg(rng: &mut Rng) -> Value {
         }
     }
     // a token can only have been sent (pre-history) if it was sendable then
-    let (dg, allow) = if legacy == "v1" { (100, json!([{"gas":-1}])) } else { (dg, allow) };
+    let (dg, allow) = if legacy == "v1" { (100, json!([{"gas":-1}])) } else if legacy == "v2" { (dg, json!([{"gas":200}])) } else { (dg, allow) };
     json!({"channels":channels,"defaultGas":dg,"allow":allow,"legacy":legacy,"scale":scale,"pre":pre})
 }
 
